@@ -67,6 +67,13 @@ class P(Prop):
             shape, f, g = operand_pair(rng, maxn if rng.random() < 0.15 else 8)
             op = "pw_add" if i % 2 == 0 else "pw_sub"
             out.append(dict(op=op, f=f, g=g, meta={"class": op + "/" + shape}))
+        for n1, n2 in ((17, 3), (3, 18), (33, 32), (65, 64), (1, 70), (100, 2)):
+            for op in ("pw_add", "pw_sub"):
+                e1 = sorted(rng.uniform(0, 50) for _ in range(n1))
+                e2 = sorted(rng.choice(e1 + [rng.uniform(0, 60)]) for _ in range(n2))
+                f = [[C.bits(e)] + q4_piece(rng) for e in e1]
+                g = [[C.bits(e)] + q4_piece(rng) for e in e2]
+                out.append(dict(op=op, f=f, g=g, meta={"class": op + "/long"}))
         # malformed stream
         for op in ("pw_add", "pw_sub"):
             shape, f, g = operand_pair(rng, 4)
